@@ -1,23 +1,35 @@
 CHECK = {
-    "suites": [suite("rounds", "c10", 1500, 150000, stdin=True)],
+    "suites": [suite("rounds", "c10", 2500, 150000, stdin=True)],
     "gen": [{"pkg": "extract_c10", "out": "lean/ClusterVerif/Gen/C10.lean"}],
     "lean_sources": ["ClusterVerif/Model/C10Source.lean", "ClusterVerif/Gen/C10.lean", "ClusterVerif/Model/Pin.lean", "ClusterVerif/Model/C04.lean", "ClusterVerif/Model/C10.lean", "ClusterVerif/Spec/C10.lean",
-                     "ClusterVerif/Model/C03.lean", "ClusterVerif/Spec/C03.lean", "ClusterVerif/Lemmas/C10.lean"],
+                     "ClusterVerif/Model/C03.lean", "ClusterVerif/Spec/C03.lean", "ClusterVerif/Lemmas/C10.lean", "ClusterVerif/Props/C10.lean"],
     "rule": "one case = one round over a shared pinset of 1-6 pins and 1-8 members: a ping alert for one member delivered to the real alertsHandler of every other "
-            "(trusted) member in turn, or one member running PeerRemove, or every member running StateSync; members carry follower / disable-repinning flags, "
-            "any metric state per peer, real blake2b hashes of the peer ids and cids; non-trivial = every case; distinct by case line",
-    "trusted_base": ["FakeConsensus shared by the members of a round (a real dsstate applying LogPin/LogUnpin directly, same Peers()/IsTrustedPeer view at every member)",
+            "(trusted) member, or one member running PeerRemove (LogPin / RmPeer call order recorded, RmPeer optionally failing, metrics optionally too scarce for some "
+            "re-pins), or every member running StateSync; members act in any order (schedule = order of the actor list), under the serial discipline (shared state) or the "
+            "snapshot discipline (private copy of the pre-state each, commits replayed in a seeded random order); rounds may be repeated (x2), name another metric than ping, "
+            "give single members a smaller view of the peerset; members carry follower / disable-repinning flags, any metric state per peer, real blake2b hashes of the peer "
+            "ids and cids; every 25th case evaluates the real Pin.ExpiredAt on a concrete clock around expire == now; the arm histogram in the evidence is the input "
+            "distribution (members-n, actors-n, disc-*, order-*, repeated-x2, views-disagree, metric-not-ping, rmpeer-fails, failed-holds-nothing, only-failed-no-healthy, "
+            "factors-everywhere, remove-partial, two-repinners, expat-*); non-trivial = every case; distinct by case line",
+    "trusted_base": ["FakeConsensus shared by the members of a round (a real dsstate applying LogPin/LogUnpin directly), wrapped per member (harness/c10/cons.go: own Peers() view, call record, failing RmPeer); "
+                     "snapshot discipline: the harness replays the recorded LogPin/LogUnpin on a fresh dsstate in a seeded order, as a consensus layer would",
                      "alerts are delivered through the monitor's alert channel to the real alertsHandler; a second non-ping alert is used as a completion barrier",
                      "hashes are passed to the model as numbers: bytes.Compare on 32-byte arrays = numeric order of their big-endian value"],
     "assumptions": ["blake2b-256 hashes of distinct members are distinct (collision freeness)",
-                    "members agree on the peerset and on who is trusted; untrusted members do not act"],
+                    "members agree on the peerset and on who is trusted (the property's own proviso; without it `disagreement_two_repinners` / `disagreement_nobody` show the claim fails, and the first is replayed on the real code from the corpus); untrusted members do not act",
+                    "pinsets of plain data pins for the expiry round theorem (sharded content is removed with its root: C04)"],
 }
 META = {
     "text": "Kernel-checked theorems: exactly one member is closest to any CID for every non-empty member set with pairwise distinct hashes (xor-distance uniqueness, "
-            "no bound on sizes); a re-pin away from a failed peer preserves every option, never erases an entry, excludes the failed peer and yields an allocation "
-            "admitted by C03; followers and peers with re-pinning disabled log nothing; the expiry sweep only ever unpins expired pins. The round model "
-            "(alertsHandler / vacatePeer / StateSync over C04's pin and unpin) is tied to the code by running real Cluster instances over a shared real dsstate "
-            "and comparing final pinset and per-member LogPin/LogUnpin calls; the Lean property clauses are evaluated on the implementation's outputs.",
+            "no bound on sizes). Round composition, for every schedule of the members and for both commit disciplines (serial on the shared pinset; every member on the same "
+            "pre-state with the commits applied afterwards in any order): per cid the round equals the closest member acting alone on the pre-state (round_cid), hence exactly "
+            "one LogPin for a re-pinnable pin of the failed peer (round_exactly_one_repin), new allocation healthy, without the failed peer, admitted by C03, options preserved "
+            "(round_result_allocs), other pins untouched, key set preserved (round_never_removes), a second round logs nothing for a re-homed pin (round_idempotent, "
+            "round_rehomed_once), schedule and discipline irrelevant (round_schedule_irrelevant, snap_same_state); without agreement on the peerset the claim fails "
+            "(witnesses). PeerRemove: every pin of the peer re-homed or the re-pin reports and the pin is kept, never removed, every LogPin precedes RmPeer, the removal is "
+            "not aborted by a failed re-pin. Expiry: an expired pin is unpinned by exactly the closest member, an unexpired one by none, all orders, both disciplines; "
+            "ExpiredAt for every clock value incl. expire == now. The round model is tied to the code by running real Cluster instances over real dsstates "
+            "and comparing final pinset and per-member LogPin/LogUnpin/RmPeer calls; the Lean property clauses are evaluated on the implementation's outputs.",
     "note": "Trusted: Lean kernel, hand-written model/spec, harness (shared fake consensus, alert delivery barrier), verif_export.go; hash collision-freeness is a hypothesis.",
     "technique": "Lean 4 theorems (xor-distance uniqueness, step preservation, memoryless handler loop) + regenerated source text of the anchored functions checked against the transcribed snapshot (rfl) + differential correspondence per round on real Cluster instances",
 }
